@@ -33,4 +33,30 @@ THEOREM StepInv == IndInv /\ [Next]_vars => IndInv'
 
 THEOREM Safety == Spec => []IndInv
   BY InitInv, StepInv, PTL DEF Spec
+
+(* C02 for every N: the adjoint position moves by single steps and only forward in the count of  *)
+(* reversed steps - no step is skipped, none is reversed twice; nothing is reversed before        *)
+(* EndForward (part of IndInv).                                                                    *)
+OneAtATime == [][adj' = adj \/ adj' = adj + 1]_vars
+
+LEMMA StepOne == [Next]_vars => (adj' = adj \/ adj' = adj + 1)
+<1> SUFFICES ASSUME [Next]_vars PROVE adj' = adj \/ adj' = adj + 1
+  OBVIOUS
+<1>1. CASE Advance BY <1>1 DEF Advance
+<1>2. CASE EndForward BY <1>2 DEF EndForward
+<1>3. CASE Reverse BY <1>3 DEF Reverse
+<1>4. CASE Load BY <1>4 DEF Load
+<1>5. CASE Discard BY <1>5 DEF Discard
+<1>6. CASE UNCHANGED vars BY <1>6 DEF vars
+<1> QED BY <1>1, <1>2, <1>3, <1>4, <1>5, <1>6 DEF Next
+
+THEOREM ReversedInOrder == Spec => OneAtATime
+  BY StepOne, PTL DEF Spec, OneAtATime
+
+(* C12 for every N: whenever adjoint dependencies are in WORK they are those of the one step     *)
+(* before the adjoint position, and the forward never stands more than one step beyond it.        *)
+THEOREM DepsAdjacent == Spec => [](deps # -1 => deps = N - adj - 1)
+<1>1. IndInv => (deps # -1 => deps = N - adj - 1)
+  BY DEF IndInv, Pos
+<1> QED BY <1>1, Safety, PTL
 =============================================================================
